@@ -391,6 +391,10 @@ def gen_scenario(seed, root, params):
         env[k] = {'NINJA': os.path.join(w.bin, 'ninja'),
                   'MAKE': '/usr/bin/make', 'DOPPEL': '/venv/bin/doppel',
                   'PATCHELF': '/usr/bin/patchelf'}[k]
+        if k == 'MAKE' and rng.random() < 0.6:
+            # a make that does not call itself GNU Make (its version is
+            # unknown at configure time): part of the saved configuration
+            env[k] = os.path.join(w.bin, 'bsdmake')
     model = dict(env)
     tc_lines, used = [], set()
     if rng.random() < 0.75:
@@ -445,6 +449,10 @@ def execute(scn, root, fresh_world=True):
         w = W.World(root)
         R.install_stubs(w, config=cfg,
                         tools=R.STUB_TOOLS + ('mycc', 'myc++'))
+        with open(os.path.join(w.bin, 'bsdmake'), 'w') as f:
+            f.write('#!/bin/sh\ncase "$1" in --version) echo "bmake '
+                    '20200101"; exit 0;; esac\nexec /usr/bin/make "$@"\n')
+        os.chmod(os.path.join(w.bin, 'bsdmake'), 0o755)
         os.makedirs(os.path.join(w.root, 'bin2'), exist_ok=True)
         shutil.copy2(os.path.join(w.bin, 'mycc'),
                      os.path.join(w.root, 'bin2', 'mycc'))
